@@ -274,6 +274,10 @@ class Exec:
                 s.unlock(v.fields[0])
             elif n == 'TimerGuard':
                 v.fields[0].v['alive'] = False
+            elif n == 'Timer':
+                # dropping the timer (the session's Fsm) discards every entry that has not fired yet
+                for e in v.fields[0].v['pending']:
+                    e['alive'] = False
             elif n in ('Arc', 'Rc', 'Sender', 'Receiver'):
                 return
             elif depth < 6:
